@@ -20,7 +20,7 @@ import core  # noqa: E402
 
 PY = "/venv/bin/python"
 WORKER = os.path.join(HERE, "worker.py")
-SCRATCH = os.environ.get("VERIF_SCRATCH", os.path.join(VERIF, ".scratch"))
+SCRATCH = os.environ.get("VERIF_SCRATCH", "/tmp/simcheck-scratch")  # re-creatable build/overlay cache, outside /repo and /verif
 
 
 class HarnessError(Exception):
@@ -91,8 +91,17 @@ def finding_matches(f: dict, viol: dict) -> bool:
     return True
 
 
+def env_for_case_file(prop: str, path: str, extra_env: dict) -> dict:
+    mod = core.prop_module(prop)
+    if not hasattr(mod, "case_env"):
+        return extra_env
+    data = json.load(open(path))
+    first = data if isinstance(data, dict) else (data[0] if data else {})
+    return mod.case_env(first.get("case", {}), extra_env)
+
+
 def exec_case_file(prop: str, path: str, hash_seed: int, extra_env: dict, timeout=300) -> list[dict]:
-    recs = run_worker(["exec", prop, path], worker_env(hash_seed, extra_env), timeout)
+    recs = run_worker(["exec", prop, path], worker_env(hash_seed, env_for_case_file(prop, path, extra_env)), timeout)
     return [r for r in recs if "done" not in r]
 
 
@@ -176,8 +185,9 @@ def check(prop: str, tier: str, seed: int, runs: int | None, budget_s: float | N
         hs = core.hash_seed_for(seed, key, b, n_hash)
         start = b * block
         count = min(block, cfg["runs"] - start)
+        benv = mod.block_env(b, extra_env) if hasattr(mod, "block_env") else extra_env
         recs = run_worker(["run", prop, str(seed), tier, str(start), str(count), str(sample_every)],
-                          worker_env(hs, extra_env), per_block_timeout)
+                          worker_env(hs, benv), per_block_timeout)
         return hs, recs
 
     with cf.ThreadPoolExecutor(max_workers=workers) as ex:
@@ -314,7 +324,8 @@ def check(prop: str, tier: str, seed: int, runs: int | None, budget_s: float | N
 def report_violation(prop: str, seed: int, it: dict, extra_env: dict, findings: list[dict]) -> str:
     """Shrink (same violation key), write the replay file, re-run it twice in fresh interpreters."""
     hs = it["hash_seed"]
-    env = worker_env(hs, extra_env)
+    mod = core.prop_module(prop)
+    env = worker_env(hs, mod.case_env(it["case"], extra_env) if hasattr(mod, "case_env") else extra_env)
     with tempfile.TemporaryDirectory(dir=SCRATCH) as td:
         inp, outp = os.path.join(td, "in.json"), os.path.join(td, "out.json")
         json.dump({"case": it["case"], "target": it["v"]}, open(inp, "w"), default=core._default)
